@@ -514,6 +514,8 @@ func (s *state) evalCall(node *ast.CallNode) {
 			s.errorf("unexpected call param type: %T", param)
 		}
 	}
+	// (rendering a param's content has moved the position marker into that content)
+	s.at(node)
 
 	callData.enter()
 	state := &state{
